@@ -165,6 +165,23 @@ func Hist(name string) *ref.History {
 			[]*ref.AEvent{ref.Q(1600000025, "db1", "DROP TABLE t2")})}}}
 	case "H8":
 		h = hist8(cfg)
+	case "H13":
+		// the first file ends with a STOP event (the master was shut down): the
+		// next file is announced by the artificial ROTATE only; the second file
+		// holds two transactions without events (rolled back; BEGIN / COMMIT
+		// around nothing) around ordinary ones
+		h = &ref.History{Cfg: cfg, Files: []*ref.File{
+			{Name: f1, Events: cat(
+				txInsert(1600000000, t, 21, 1, "alice"),
+				txUpdate(1600000010, t, 22, 1, "alice", "bob"),
+				[]*ref.AEvent{{Kind: ref.AStop, TS: 1600000015}})},
+			{Name: f2, Events: cat(
+				[]*ref.AEvent{ref.Q(1600000017, "db1", "BEGIN"), ref.TM(1600000017, t),
+					ref.R(1600000017, ref.RowDelete, t, ref.RowChange{Before: row1(t, 9, "auto", 1)}),
+					ref.Q(1600000018, "db1", "ROLLBACK")},
+				txInsert(1600000020, t, 23, 2, "carol"),
+				[]*ref.AEvent{ref.Q(1600000025, "db1", "BEGIN"), ref.Q(1600000026, "db1", "COMMIT")},
+				txDelete(1600000030, t, 24, 2, "carol"))}}}
 	case "H12":
 		// one statement logged as two rows events outside BEGIN...COMMIT (each is
 		// delivered as a transaction of its own): the first delivery must not
